@@ -29,6 +29,9 @@ TRUSTED = [
     'filter) tied by exact correspondence on mask_plane / mask_file / mask_table / mask_catalog',
     'astropy.wcs.WCS.wcs_pix2world, healpy.ang2pix and Region.get_demoted (their answers are inputs of the model, tabulated per case); '
     'astropy.io.fits / astropy.table file round trips; numpy',
+    'command line glue AegeanTools/CLI/MIMAS.py (argument parsing, defaults, option -> keyword mapping, argument order, output '
+    'naming) is not modelled in Coq; it is tied on every run by tools/harness/cli_cases.py: MIMAS command lines (--maskimage and --maskcat with and without --negate / --colnames, csv / fits / vot tables, cubes, -o +c -c region building) run in subprocesses and '
+    'the files they write equal, bit for bit (tables apart from uuids), those of the library call that --help and the docstrings promise',
 ]
 ASSUMPTIONS = [
     'wcs_pix2world(p, origin) is the sky position of FITS pixel p + 1 - origin (hypothesis of every image theorem; validated on every run)',
@@ -672,6 +675,9 @@ def run(ctx, model_ok=True):
             ctx.oblige(f'correspondence: {len(vals)} mask_plane / mask_file / mask_table outputs equal to the model', nbad == 0,
                        f'{nbad} differ')
             ctx.traces = len(vals)
+    # ---- command line tie: the argument glue of AegeanTools/CLI vs the library call that --help promises
+    from harness import cli_cases
+    cli_cases.hook(ctx, cli_cases.mimas_mask_cli, 'MIMAS')
 
 
 def _one(ctx, rng):
@@ -704,6 +710,9 @@ def replay(ctx, obj):
         for b in obj.get('broken', []):
             print('  ', b.get('what'), str(b.get('detail', b.get('case', '')))[:400])
         return 1
+    if fi.get('kind') == 'cli':
+        from harness import cli_cases
+        return cli_cases.replay_cli(ctx, fi)
     if 'table_case' in fi:
         v, _, ids, _ = check_table(ctx, fi['table_case'], fi['via'], ext=fi.get('ext'), tag='r')
         print('table case:', {k: x for k, x in fi['table_case'].items() if k != 'rows'})
